@@ -308,6 +308,10 @@ fn parse_txt_payload(payload: &str) -> Result<Vec<ScionIpAddr>, TxtParseError> {
         }
 
         remaining = rest[1..].trim();
+        if remaining.is_empty() {
+            // A separator must be followed by another address.
+            return Err(TxtParseError::ExpectedOpenBracket(remaining.to_string()));
+        }
     }
 
     Ok(addresses)
